@@ -83,15 +83,23 @@ structure Thresholds where
   chunkBufSize : Nat
   /-- `RESPONSE_HEAD_BUF_INIT_CAP` (a capacity: no observable effect) -/
   headInitCap : Nat
-  /-- `Vec::with_capacity(128)` in `probe_body` (a literal in the source) -/
+  /-- `Vec::with_capacity(128)` in `probe_body` (extracted: `Gen.probeInitCap`) -/
   probeInitCap : Nat := 128
-  /-- `.min(1024)` in `probe_body` (a literal in the source) -/
+  /-- `.min(1024)` in `probe_body` (extracted: `Gen.probeStep`) -/
   probeStep : Nat := 1024
   deriving Repr
 
 def Thresholds.gen : Thresholds :=
   { probeMax := Gen.probeMax, inlineCopyMax := Gen.inlineCopyMax,
-    chunkBufSize := Gen.chunkBufSize, headInitCap := Gen.headInitCap }
+    chunkBufSize := Gen.chunkBufSize, headInitCap := Gen.headInitCap,
+    probeInitCap := Gen.probeInitCap, probeStep := Gen.probeStep }
+
+/-- the constants as they were when the concrete examples of Props/C08 and Props/C20 were written (8 KiB probe, 2 KiB
+    inline copy, 128 KiB chunk buffer …).  Examples and the "numbers" theorem use this instance, so that a later harmless
+    change of a constant in the source does not invalidate an ILLUSTRATION; every property theorem is stated for arbitrary
+    thresholds and the hypotheses it needs are discharged for `Thresholds.gen` (the values extracted from the source). -/
+def Thresholds.frozen : Thresholds :=
+  { probeMax := 8192, inlineCopyMax := 2048, chunkBufSize := 131072, headInitCap := 512, probeInitCap := 128, probeStep := 1024 }
 
 /-- what the model needs of the constants: without these the Rust *logic* would be different
     (`probeMax = 0` → an empty first chunk = premature terminator; `chunkBufSize = 0` → `read(&mut [])`;
